@@ -189,14 +189,18 @@ Proof. exact hrun_answered. Qed.
 Print Assumptions history_is_answered_with_enough_fuel.
 
 (* Non-vacuity: the adaptation fails, ABCMeta.register makes the source provide the from-protocol, then it succeeds;
-   an offer is registered and a shorter answer appears *)
+   an offer is registered and a shorter answer appears; reset_global_adaptation_manager() leaves the user's manager intact
+   (its own adapt still answers) while the module-level route sees a new empty manager, until the user's is installed again *)
 Example history_nontrivial :
   let t := true in let f := false in
-  let st := mkH [[t;f;f]; [f;t;f]; [f;f;t]] [[0]; [1]; [2]] [(0, 2, FAlways)] in
+  let st := mkH [[t;f;f]; [f;t;f]; [f;f;t]] [[0]; [1]; [2]] [(0, 2, FAlways)] true in
   let ops := [HQuery (1, 2, f, ApiAdaptDefault); HTables [[t;f;f]; [t;t;f]; [f;f;t]] [[0]; [1]; [2]];
-              HQuery (1, 2, f, ApiAdaptDefault); HOffer (1, 2, FAlways); HQuery (1, 2, f, ApiAdapt)] in
+              HQuery (1, 2, f, ApiAdaptDefault); HOffer (1, 2, FAlways); HQuery (1, 2, f, ApiAdapt);
+              HResetGlobal; HQuery (1, 2, f, ApiAdapt); HQuery (1, 2, f, ApiAdaptDefault); HSetGlobal; HQuery (1, 2, f, TraitSupports)] in
   map snd (hrun default_fuel st ops)
-  = [Some (OValue VDefault); None; Some (OValue (VAdapter [mk_offer_ 0 0 2])); None; Some (OValue (VAdapter [mk_offer_ 1 1 2]))]
+  = [Some (OValue VDefault); None; Some (OValue (VAdapter [mk_offer_ 0 0 2])); None; Some (OValue (VAdapter [mk_offer_ 1 1 2]));
+     None; Some (OValue (VAdapter [mk_offer_ 1 1 2])); Some (OValue VDefault); None;
+     Some (OStored (VAdapter [mk_offer_ 1 1 2]) (Some VSelf))]
   /\ hlaw 0%Z st (hrun default_fuel st ops) = [].
 Proof. vm_compute. split; reflexivity. Qed.
 
